@@ -10,6 +10,9 @@
       the square root of the success probability);
     * `leak`: probability of the selected (heralds + post-selection) but *non-logical* outputs;
     * `fitScalar`, `dev2`: the per-instance validation quantities evaluated exactly by the driver.
+    * evaluation: `permSkip` (Laplace expansion skipping zeros, proved `= Matrix.permanent` in
+      `Lemmas/C20.lean`) up to six photons; `permRyser` (Ryser's formula, executable only, NOT proved) beyond —
+      the driver compares the two on every instance up to six photons.
 
   Converter layer (the bookkeeping of `perceval/converters/abstract_converter.py` and
   `converter_utils.py`, as the code is):
